@@ -15,17 +15,15 @@ package c20
 
 import (
 	"fmt"
-	"os"
-	"strings"
 	"math"
 	"math/big"
+	"strings"
 
 	"github.com/tuneinsight/lattigo/v6/core/rgsw"
 	"github.com/tuneinsight/lattigo/v6/core/rlwe"
 	"github.com/tuneinsight/lattigo/v6/ring"
 
 	"verif/harness/eng"
-	"verif/harness/gen"
 	"verif/harness/obs"
 	"verif/harness/ref"
 )
@@ -157,13 +155,6 @@ func rowsOf(r *ring.Ring, level int, a []int64) [][]uint64 {
 		}
 	}
 	return out
-}
-
-func l1(a []int64) (s float64) {
-	for _, x := range a {
-		s += math.Abs(float64(x))
-	}
-	return
 }
 
 func prodF(v []uint64) float64 {
@@ -321,11 +312,10 @@ func (e *env) checkRGSW(api string, ct *rgsw.Ciphertext, g []int64, bound float6
 			worst, where = mx, r
 		}
 	}
-	if os.Getenv("C20DBG") != "" {
-		fmt.Fprintln(os.Stderr, "checkRGSW", api, ctx, worst, where, l1(g))
-	}
 	e.c.Count("rgsw_rows_decrypted", int64(len(all)))
-	e.c.Max("max_rgsw_row_noise_over_bound_x1000", int64(1000*worst/bound))
+	if worst <= bound {
+		e.c.Max("max_passing_rgsw_row_noise_over_bound_x1000", int64(1000*worst/bound))
+	}
 	e.c.Distinct(key, true)
 	suffix := ""
 	if k := strings.Index(api, "#"); k >= 0 {
@@ -390,12 +380,10 @@ func equalRGSW(a, b *rgsw.Ciphertext) bool {
 	return a.Value[0].Equal(&b.Value[0]) && a.Value[1].Equal(&b.Value[1])
 }
 
-var _ = gen.PatUniform
-
 func init() {
 	eng.Register(&eng.Monitor{
 		ID: "C20", Level: "exploration",
-		Rule: "three case families. ep: rlwe parameter sets (logN, 1..4 Q primes of mixed sizes incl. primes below 2^29 that trigger the 32-bit fast path, 0..3 P primes); inside a case every sampled (RGSW levelQ, levelP, BaseTwoDecomposition w) x small plaintext g (0, +-1, +-X^k, sparse, dense) x plaintext flag combination is encrypted, and the external product is run on hostile inputs (fresh encryption, all coefficients q-1, all digits 2^w-1, uniform, one-hot) in place, out of place into a garbage-filled output, and out of place after an unrelated product; distinct key = (path, chain sizes, levelQ, levelP, w, g kind, input pattern, mode); non-trivial = the worst-case noise bound is below Q_level/8 or the exact-sum model was evaluated (levelP <= 0 and the decomposition is not the vacuous single-prime w=0 one). alg: AddLazy(ct), AddLazy(pt), Reduce, MulByXPowAlphaMinusOneLazy, ...ThenAddLazy and a chained combination, every gadget row of both halves decrypted; distinct key = (op, chain, levels, w, alpha class); all non-trivial. br: (LWE, BR) parameter pairs with N_LWE <= N_BR, evaluation-key parameters (levelP, w), LWE secret weight, test functions (sign, identity, random table, square) on an interval [a,b], slot subsets, inputs on the discretisation grid incl. end points and sign changes, a crafted ciphertext that makes the algorithm request every Galois key; distinct key = (pair, key params, weight, function, slot, grid point); non-trivial = worst-case blind-rotation noise bound below Q_BR/16 (the exact rotation amount is then decided) .",
+		Rule:  "three case families. ep: rlwe parameter sets (logN 4..10, 1..10 Q primes of mixed sizes incl. primes below 2^29 that trigger the 32-bit fast path and chains with >= 8 RNS digits, 0..3 P primes); inside a case every sampled (RGSW levelQ, levelP, BaseTwoDecomposition w) x small plaintext g (0, +-1, +-X^k, sparse, dense) x plaintext flag combination is encrypted, and the external product is run on hostile inputs (fresh encryption, all coefficients q-1, all digits 2^w-1, uniform, one-hot) in place, out of place into a garbage-filled output, and out of place after an unrelated product; distinct key = (path, chain sizes, levelQ, levelP, w, g kind, input pattern, mode); non-trivial = the worst-case noise bound is below Q_level/8 or the exact-sum model was evaluated (levelP <= 0 and the decomposition is not the vacuous single-prime w=0 one). alg: AddLazy(ct), AddLazy(pt), Reduce, MulByXPowAlphaMinusOneLazy, ...ThenAddLazy and a chained combination, every gadget row of both halves decrypted; distinct key = (op, chain, levels, w, alpha class); all non-trivial. br: (LWE, BR) parameter pairs with N_LWE <= N_BR, evaluation-key parameters (levelP, w), LWE secret weight, test functions (sign, identity, random table, square) on an interval [a,b], slot subsets, inputs on the discretisation grid incl. end points and sign changes, a crafted ciphertext that makes the algorithm request every Galois key; distinct key = (pair, key params, weight, function, slot, grid point); non-trivial = worst-case blind-rotation noise bound below Q_BR/16 (the exact rotation amount is then decided) .",
 		Cases: cases,
 		Assumptions: []string{
 			"worst-case external-product bound: 2 halves x sum over gadget rows of N*|digit|_inf*floor(B_e+1/2), divided by P, plus 1.5*(1+|s|_1) for the ModDown rounding; |digit| < 2^w, <= q_i (uncentred single-prime digits) or <= digit-group modulus (RNS digits)",
